@@ -482,6 +482,14 @@ fn convert(input_path: &str, output_path: &str, version_str: &str) -> Result<()>
         .with_context(|| format!("Failed to open input file: {}", input_path))?;
     let mut reader = BufReader::new(file);
 
+    // `parse_root` is lenient about short chunks; refuse input that `wmo validate` would reject, otherwise
+    // a truncated file is "converted successfully" into an output that does not parse
+    parse_wmo_with_metadata(&mut reader)
+        .map_err(|e| anyhow::anyhow!("Input is not a valid WMO file: {}: {}", input_path, e))?;
+    let file = File::open(input_path)
+        .with_context(|| format!("Failed to open input file: {}", input_path))?;
+    let mut reader = BufReader::new(file);
+
     let parser = WmoParser::new();
     let mut root = parser
         .parse_root(&mut reader)
